@@ -18,7 +18,10 @@ def one(s):
         if applied:
             env = dict(os.environ, VERIF_REPO=repo, VERIF_DB_FROM="/repo", VERIF_NO_EVIDENCE="1", VERIF_REPORT_DIR=os.path.join(scratch, "reports"))
             for p in props:
-                out = subprocess.run([os.path.join(V, "check"), p], capture_output=True, text=True, env=env)
+                try:
+                    out = subprocess.run([os.path.join(V, "check"), p], capture_output=True, text=True, env=env, timeout=300)
+                except subprocess.TimeoutExpired:
+                    out = subprocess.CompletedProcess([], 2, "ANALYSIS-INCONCLUSIVE property=%s rule=analysis instance=timeout at : the check did not finish in 300 s\n" % p, "")
                 lines = [l for l in out.stdout.splitlines() if l.startswith("  ") and not l.startswith("      ")]
                 res[p] = {"exit": out.returncode, "reports": [l.strip()[:300] for l in lines][:6],
                           "inconclusive": [l[:300] for l in out.stdout.splitlines() if l.startswith("ANALYSIS-INCONCLUSIVE")][:4]}
